@@ -41,10 +41,27 @@ pub struct Scenario {
     /// "missing-dir", "write-enospc" (state a failed call leaves behind must not reach this one)
     #[serde(default)]
     pub prior_failed_call: Option<String>,
+    /// a second caller thread inside a writer at the same time (own image, own path), both
+    /// under the token scheduler with yield points at every intercepted libc call
+    #[serde(default)]
+    pub duo: Option<Duo>,
     /// "sweep" (enumerated length, fault-free), "free" (seeded, fault-free), "cap", "enum"
     /// (single fault at an enumerated position), "pair", "open", "fsize"
     pub config: String,
 }
+
+#[derive(Serialize, Deserialize, Clone, Debug)]
+pub struct Duo {
+    pub writer: String,
+    pub len: usize,
+    pub fill: String,
+    pub fill_seed: u64,
+    /// "uniform" | "sticky" | "lockstep"
+    pub strategy: String,
+    pub sched_seed: u64,
+}
+
+pub const OUT2_REL: &str = "out/second.hex";
 
 pub fn image(len: usize, fill: &str, seed: u64) -> Vec<u8> {
     let mut v = vec![0u8; len];
@@ -256,16 +273,21 @@ pub fn scenario_shape(tier: &str, base_seed: u64, g: u64) -> Scenario {
             fsize_limit: None,
             hash_seed: seed,
             prior_failed_call: None,
+            duo: None,
             config: "sweep".into(),
         };
     }
     let writer = if r.chance(1, 2) { "code" } else { "eeprom" };
     let fill = fills[r.usize(fills.len())];
-    let cfgs = ["free", "cap", "enum", "enum", "enum", "pair", "open", "fsize", "enum", "cap"];
+    let cfgs = ["free", "cap", "enum", "enum", "enum", "pair", "open", "fsize", "enum", "cap", "duo"];
     let config = cfgs[r.usize(cfgs.len())];
     let small = matches!(config, "enum" | "fsize");
     let mut len = pick_len(&mut r, small);
     let mut write_cap = 0;
+    if config == "duo" {
+        len = r.range(1, 3000) as usize;
+        write_cap = [0usize, 45, 512, 4096][r.usize(4)];
+    }
     match config {
         "cap" | "enum" | "pair" | "fsize" => {
             let caps = [1usize, 7, 16, 45, 4096, 0, 45, 4096];
@@ -300,6 +322,18 @@ pub fn scenario_shape(tier: &str, base_seed: u64, g: u64) -> Scenario {
         rules: vec![],
         fsize_limit: None,
         hash_seed: seed,
+        duo: if config == "duo" {
+            Some(Duo {
+                writer: if r.chance(1, 2) { "code".into() } else { "eeprom".into() },
+                len: r.range(1, 3000) as usize,
+                fill: fills[r.usize(fills.len())].to_string(),
+                fill_seed: seed ^ 0xD00,
+                strategy: ["uniform", "sticky", "lockstep"][r.usize(3)].to_string(),
+                sched_seed: seed ^ 0x5C4ED,
+            })
+        } else {
+            None
+        },
         prior_failed_call: if matches!(config, "free" | "cap") && r.chance(1, 2) { Some(["is-directory", "missing-dir", "write-enospc"][r.usize(3)].to_string()) } else { None },
         config: config.into(),
     }
@@ -310,6 +344,9 @@ pub struct RunOut {
     pub result: Result<Result<(), String>, String>,
     pub file: Option<Vec<u8>>,
     pub state: SimState,
+    /// result and file of the second caller thread (duo)
+    pub second: Option<(Result<Result<(), String>, String>, Option<Vec<u8>>)>,
+    pub switches: u64,
 }
 
 pub const OUT_REL: &str = "out/image.hex";
@@ -378,6 +415,9 @@ pub fn execute(sc: &Scenario, scratch: &Scratch, budget: u64) -> Result<RunOut, 
     let is_code = sc.writer == "code";
     let p2 = out_path.clone();
     let limit = sc.fsize_limit;
+    if let Some(duo) = &sc.duo {
+        return execute_duo(sc, duo, scratch, st, br, out_path);
+    }
     let run = run_simulated(st, move || {
         if let Some((pp, pbr)) = prior {
             // the result of the earlier call is not judged here; it is expected to fail
@@ -396,7 +436,62 @@ pub fn execute(sc: &Scenario, scratch: &Scratch, budget: u64) -> Result<RunOut, 
         restore_fsize(libc::RLIM_INFINITY);
     }
     let file = std::fs::read(&out_path).ok();
-    Ok(RunOut { result: run.result, file, state: run.state })
+    Ok(RunOut { result: run.result, file, state: run.state, second: None, switches: 0 })
+}
+
+fn execute_duo(sc: &Scenario, duo: &Duo, scratch: &Scratch, st: SimState, br: BuildResult, out_path: PathBuf) -> Result<RunOut, String> {
+    use crate::sched::{Sched, Strategy};
+    let img2 = image(duo.len, &duo.fill, duo.fill_seed);
+    let other2 = other_image(duo.len, duo.fill_seed);
+    let br2 = if duo.writer == "code" {
+        BuildResult { code: img2, eeprom: other2, flash_size: 4194304, eeprom_size: 65536, ram_size: 8388608, ram_filling: 0, messages: vec![] }
+    } else {
+        BuildResult { code: other2, eeprom: img2, flash_size: 4194304, eeprom_size: 65536, ram_size: 8388608, ram_filling: 0, messages: vec![] }
+    };
+    let out2 = scratch.path(OUT2_REL);
+    let strategy = match duo.strategy.as_str() {
+        "lockstep" => Strategy::RoundRobin,
+        "sticky" => Strategy::Sticky(300),
+        _ => Strategy::Uniform,
+    };
+    let sched = Sched::new(2, strategy, duo.sched_seed);
+    crate::simlibc::install(st);
+    sched.install();
+    let calls: Vec<(bool, PathBuf, BuildResult)> = vec![(sc.writer == "code", out_path.clone(), br), (duo.writer == "code", out2.clone(), br2)];
+    let mut handles = vec![];
+    for (tid, (is_code, path, b)) in calls.into_iter().enumerate() {
+        let sched = sched.clone();
+        handles.push(
+            std::thread::Builder::new()
+                .name(format!("sim{}", tid))
+                .stack_size(64 << 20)
+                .spawn(move || {
+                    crate::simlibc::set_active(Some(tid as u32));
+                    crate::simlibc::bypass(|| sched.enter(tid));
+                    let r = std::panic::catch_unwind(std::panic::AssertUnwindSafe(|| {
+                        let r = if is_code { avra_lib::writer::write_code_hex(path, &b) } else { avra_lib::writer::write_eeprom_hex(path, &b) };
+                        r.map_err(|e| e.to_string())
+                    }));
+                    crate::simlibc::bypass(|| sched.finish(tid));
+                    crate::simlibc::set_active(None);
+                    r.map_err(panic_text)
+                })
+                .map_err(|e| e.to_string())?,
+        );
+    }
+    sched.start();
+    let sup = sched.supervise(60.0);
+    let mut results = vec![];
+    for h in handles {
+        results.push(h.join().unwrap_or_else(|p| Err(panic_text(p))));
+    }
+    Sched::uninstall();
+    let state = crate::simlibc::uninstall().ok_or("simulator state vanished")?;
+    sup?;
+    let switches = sched.st.lock().unwrap_or_else(|e| e.into_inner()).switches;
+    let second = results.pop().unwrap();
+    let first = results.pop().unwrap();
+    Ok(RunOut { result: first, file: std::fs::read(&out_path).ok(), state, second: Some((second, std::fs::read(&out2).ok())), switches })
 }
 
 pub fn set_fsize(n: Option<u64>) -> libc::rlim_t {
@@ -439,13 +534,28 @@ fn faulted(sc: &Scenario) -> bool {
 
 /// Judge one executed scenario. `fired` = a rule fired or the kernel limit bit.
 pub fn judge(sc: &Scenario, out: &RunOut, seed: u64) -> Option<Violation> {
+    if let (Some(duo), Some((r2, f2))) = (&sc.duo, &out.second) {
+        // the second caller's call is judged like a call of its own
+        let mut s2 = sc.clone();
+        s2.duo = None;
+        s2.writer = duo.writer.clone();
+        s2.len = duo.len;
+        s2.fill = duo.fill.clone();
+        s2.fill_seed = duo.fill_seed;
+        let o2 = RunOut { result: r2.clone(), file: f2.clone(), state: SimState::new(""), second: None, switches: 0 };
+        if let Some(mut v) = judge(&s2, &o2, seed) {
+            v.signature = format!("{} duo=second-caller", v.signature);
+            v.scenario = serde_json::to_value(sc).unwrap();
+            return Some(v);
+        }
+    }
     let img = image(sc.len, &sc.fill, sc.fill_seed);
     let mk = |class: &str, expected: &str, observed: Value| -> Option<Violation> {
         Some(Violation {
             property: "C07".into(),
             engine: "hexio".into(),
             class: class.into(),
-            signature: format!("class={} writer={} len={} faults={}", class, sc.writer, len_class(sc.len), if faulted(sc) { "yes" } else { "none" }),
+            signature: format!("class={} writer={} len={} faults={}{}", class, sc.writer, len_class(sc.len), if faulted(sc) { "yes" } else { "none" }, if sc.duo.is_some() { " duo" } else { "" }),
             seed,
             expected: expected.into(),
             observed,
@@ -604,7 +714,7 @@ pub fn worker(cfg: &WorkerCfg, emit: &mut dyn FnMut(Violation)) -> Stats {
                 }
             }
         } else if sc.config == "open" {
-            place_faults(&mut sc, &RunOut { result: Ok(Ok(())), file: None, state: SimState::new("") }, &mut r);
+            place_faults(&mut sc, &RunOut { result: Ok(Ok(())), file: None, state: SimState::new(""), second: None, switches: 0 }, &mut r);
         }
         if faulted(&sc) && budget == u64::MAX {
             budget = 16 * (sc.len as u64 * 3 / sc.write_cap.max(1) as u64 + 64) + 64;
@@ -666,6 +776,7 @@ pub fn worker(cfg: &WorkerCfg, emit: &mut dyn FnMut(Violation)) -> Stats {
         stats.probe("output_path_is_a_symbolic_link", sc.pre_kind == "symlink" || sc.pre_kind == "dangling");
         stats.probe("largest_flash_image", sc.len == MAX_FLASH);
         stats.probe("call_after_a_failed_call_on_the_same_thread", sc.prior_failed_call.is_some());
+        stats.probe("two_caller_threads_inside_the_writers_with_a_switch", sc.duo.is_some() && out.switches > 0);
         stats.probe("image_crosses_1MiB_segment_limit", sc.len > 0x10_0000);
         stats.probe("writer_returned_err_under_fault", matches!(out.result, Ok(Err(_))) && faulted(&sc));
         stats.probe("writer_rode_through_benign_faults", matches!(out.result, Ok(Ok(()))) && any_fired);
@@ -756,6 +867,18 @@ pub fn shrink(scv: &Value) -> Vec<Value> {
         let mut s = sc.clone();
         s.prior_failed_call = None;
         push(s);
+    }
+    if let Some(d) = &sc.duo {
+        let mut s = sc.clone();
+        s.duo = None;
+        push(s);
+        for l in [1usize, 16, 17, d.len / 2] {
+            if l < d.len {
+                let mut s = sc.clone();
+                s.duo.as_mut().unwrap().len = l;
+                push(s);
+            }
+        }
     }
     // shorten the image
     let mut cands: Vec<usize> = vec![0, 1, 16, 17, sc.len / 2, sc.len.saturating_sub(65536), sc.len.saturating_sub(16), sc.len.saturating_sub(1)];
